@@ -56,6 +56,11 @@ TEMPLATES = {
     "cmp_raises_ge_valueerror": ["assert Picky(-{a} - 1) >= snapshot(Picky({b}))", "assert {a} == snapshot({b})"],
     "cmp_raises_le_valueerror_second": ["s = snapshot(Picky({b}))", "assert Picky({a}) <= s", "assert Picky(-1) <= s"],
     "cmp_raises_create_valueerror": ["s = snapshot()", "assert Picky({a}) <= s", "assert Picky(-2) <= s"],
+    # values that can be ordered against the stored value in one direction only (the reverse comparison raises) - seeded round 6
+    "cmp_one_direction_snapshot_left": ["assert snapshot({a}) <= OneWay({a} + 2)"],
+    "cmp_one_direction_snapshot_right": ["assert OneWay({a} + 2) >= snapshot({a})", "assert OneWay({a} + 50) >= snapshot({a})"],
+    "cmp_one_direction_ge": ["assert snapshot({a} + 9) >= LowWay({a})"],
+    "cmp_one_direction_second": ["s = snapshot({a})", "assert OneWay({a} + 2) >= s", "assert {a} + 1 >= s"],
     "cmp_eq_raises": ["class E:\n        def __eq__(self, o): raise ZeroDivisionError", "assert E() == snapshot({a})"],
     "nested_parent_type_change": ["assert {s!r} == snapshot([snapshot({a} + 0)])"],
     "nested_elem_deleted": ["assert [{a}] == snapshot([{a}, snapshot({b})])"],
@@ -133,6 +138,58 @@ class Picky:
             return NotImplemented
         self._check(other)
         return self.n >= other.n
+'''
+
+PICKY += '''
+
+class OneWay:
+    """int <= OneWay works (reflected __ge__), OneWay <= int raises"""
+
+    def __init__(self, n):
+        self.n = n
+
+    def __repr__(self):
+        return f"OneWay({self.n})"
+
+    def __eq__(self, other):
+        return type(other) is OneWay and other.n == self.n
+
+    def __ge__(self, other):
+        if isinstance(other, int):
+            return self.n >= other
+        if type(other) is OneWay:
+            return self.n >= other.n
+        raise TypeError("can not compare")
+
+    def __le__(self, other):
+        if type(other) is OneWay:
+            return self.n <= other.n
+        raise TypeError("can not compare OneWay with int")
+
+
+class LowWay:
+    """int >= LowWay works (reflected __le__), LowWay >= int raises"""
+
+    def __init__(self, n):
+        self.n = n
+
+    def __repr__(self):
+        return f"LowWay({self.n})"
+
+    def __eq__(self, other):
+        return type(other) is LowWay and other.n == self.n
+
+    def __le__(self, other):
+        if isinstance(other, int):
+            return self.n <= other
+        if type(other) is LowWay:
+            return self.n <= other.n
+        raise TypeError("can not compare")
+
+    def __ge__(self, other):
+        if type(other) is LowWay:
+            return self.n >= other.n
+        raise TypeError("can not compare LowWay with int")
 '''
 
 
